@@ -544,6 +544,48 @@ Section Faults.
     destruct (faults_never_corrupt fed st Hl Hok) as (st' & outs & E & G). rewrite Hmap in E.
     exists st', outs. split; [exact E|]. eapply Forall_impl; [|exact G]. intros q Hq. apply (good_plain fed); assumption.
   Qed.
+
+  (* ---------- other traffic in between does not matter ---------- *)
+  Lemma buf_ep_ser_frame c f : 1 <= fr_ver f < 256 -> 0 <= fr_type f < 256 -> 0 <= c < 65536 ->
+    buf_ep (ser_frame minb dev stream c f) = Some e.
+  Proof.
+    intros Hv Ht Hc. unfold buf_ep, ser_frame, pad_to. rewrite <- app_assoc.
+    set (fh := {| f_ver := fr_ver f; f_dev := dev; f_mt := fr_type f; f_stream := stream; f_seq := c |}).
+    assert (Hfh : fhdr_ok fh) by (unfold fhdr_ok, fh; cbn; lia).
+    destruct (parse_ser_fhdr fh (concat (map ser_item (fr_items f)) ++ zeros (minb - zlen (ser_fhdr fh ++ concat (map ser_item (fr_items f))))) Hfh) as [P U].
+    rewrite P, U, zlen_app, ser_fhdr_zlen.
+    match goal with |- context [8 + zlen ?x <? 8] => pose proof (zlen_nonneg x); destruct (Z.ltb_spec (8 + zlen x) 8); [lia|] end.
+    cbn [orb fh f_ver]. destruct (Z.eqb_spec (fr_ver f) 0); [lia|]. reflexivity.
+  Qed.
+
+  Lemma buf_ep_fbytes x : fed_ok x -> buf_ep (fbytes x) = Some e.
+  Proof.
+    destruct x as [[k ver'] mt']. intros (Hk & Hv' & Hm'). unfold fbytes.
+    destruct (nth_error fs k) as [f|] eqn:E; [|apply nth_error_None in E; lia].
+    apply buf_ep_ser_frame; cbn [retag fr_ver fr_type]; try assumption. apply ctr_range.
+  Qed.
+
+  Lemma runh_dec_frames : forall bs st st' outs, dec_frames st bs = Ok (st', outs) -> Forall (fun b => buf_ep b <> None) bs -> runh st bs = outs.
+  Proof.
+    induction bs as [|b t IH]; intros st st' outs H HF; cbn [dec_frames] in H.
+    - inversion H. reflexivity.
+    - inversion HF as [|? ? Hb Ht]; subst. cbn [runh]. unfold cmp_out, dec1.
+      destruct (decode st b) as [[s1 o1]| |] eqn:D; cbn [rbind] in H; try discriminate.
+      destruct (dec_frames s1 t) as [[s2 o2]| |] eqn:D2; cbn [rbind] in H; try discriminate.
+      inversion H; subst. destruct (buf_ep b); [|congruence]. cbn [fst snd]. f_equal. eapply IH; eauto.
+  Qed.
+
+  (* the fault history may be interleaved with ANY other buffers - frames of other endpoints (with their own reassemblies, faults,
+     garbage), TECMP frames, short buffers: what the decoder delivers for this endpoint is still only good packets *)
+  Theorem faults_among_other_traffic fed h st : lookup e st = None -> Forall fed_ok fed -> proj e h = map fbytes fed ->
+    Forall (good fed) (projp e (runh st h)).
+  Proof.
+    intros Hl Hok Hp. rewrite (isolation e h st st eq_refl), Hp.
+    destruct (faults_never_corrupt fed st Hl Hok) as (st' & outs & E & G).
+    rewrite (runh_dec_frames _ _ _ _ E); [exact G|].
+    apply Forall_forall. intros b Hb. apply in_map_iff in Hb. destruct Hb as (x & <- & Hx).
+    rewrite Forall_forall in Hok. rewrite (buf_ep_fbytes x (Hok x Hx)). discriminate.
+  Qed.
 End Faults.
 
 (* ---------- the same for the frames returned by the encoder model, at the byte level ---------- *)
